@@ -79,7 +79,7 @@ class C07(Prop):
         "judged by C01 through the writer)",
         "surplus columns are expected as curves with blank original mnemonic after the declared ones",
     ]
-    quick = {"runs": 6000, "wall": 40}
+    quick = {"runs": 35000, "wall": 60}
     thorough = {"runs": 300000, "wall": 900}
 
     def gen(self, st, tier, index):
